@@ -248,6 +248,30 @@ fn run_op(op: &Op, _in_dtor: bool) {
                     let h = take(a[1]);
                     drop(h_rc(h));
                 }
+                "cost_clone" => {
+                    let (r, d) = with_rc(a[1], |r| {
+                        let a0 = ALLOCS.load(Ordering::Relaxed);
+                        let c = Rc::clone(r);
+                        (c, ALLOCS.load(Ordering::Relaxed) - a0)
+                    });
+                    out(format!("ret cost_clone {}", d));
+                    put(a[2], H::Rc(r));
+                }
+                "cost_drop" => {
+                    let h = h_rc(take(a[1]));
+                    let a0 = ALLOCS.load(Ordering::Relaxed);
+                    drop(h);
+                    let d = ALLOCS.load(Ordering::Relaxed) - a0;
+                    out(format!("ret cost_drop {}", d));
+                }
+                "drop_any" => {
+                    match take(a[1]) {
+                        H::Rc(r) => drop(r),
+                        H::Val(v) => drop(v),
+                        H::Weak(w) => drop(w),
+                        _ => panic!("SCRIPT: cannot drop raw"),
+                    }
+                }
                 "drop_if" => {
                     let h = ST.with(|s| s.borrow_mut().handles.remove(a[1]));
                     if let Some(h) = h {
